@@ -9,6 +9,7 @@ import SpVerif.Ops.Cds
 import SpVerif.Ops.CfdpHeader
 import SpVerif.Ops.ByteField
 import SpVerif.Ops.Tlv
+import SpVerif.Ops.Parser
 /-!
 # Line-protocol driver: one JSON object per input line (`{"op": …, …}`), one JSON result per output line.
 `{"ok": …}` / `{"err": "<category>"}` are model results; `{"bad": "<msg>"}` is a protocol error.
@@ -27,6 +28,7 @@ def allOps : List (String × Handler) := []
   ++ Ops.CfdpHeader.ops
   ++ Ops.ByteField.ops
   ++ Ops.Tlv.ops
+  ++ Ops.Parser.ops
 
 def table : Std.HashMap String Handler := Std.HashMap.ofList allOps
 
